@@ -35,6 +35,20 @@ def _addr(i):
     return ADDRS[i]
 
 
+class Ctx(tuple):
+    """context of an event: ('api', op, rid) / ('rx', kind, ...) / ('timer', name) / ('lose', reason);
+    .parent is the enclosing context when an API call is made from inside a callback"""
+    parent = None
+
+
+def within(ctx, outer):
+    while ctx is not None:
+        if ctx is outer:
+            return True
+        ctx = getattr(ctx, "parent", None)
+    return False
+
+
 class Ev(object):
     __slots__ = ("i", "step", "t", "c", "k", "ctx", "d")
 
@@ -167,6 +181,8 @@ class World(object):
         self.budget_hit = False
         self.too_big = False
         self.quiet = False
+        self.armed = {}
+        self.coalesce = {}
         self.ops_done = []
         JITTER.value = cfg.get("jitter", 0.25)
         REACTOR.reset(self)
@@ -188,7 +204,9 @@ class World(object):
 
     def push(self, ctx):
         self.ctx_stack.append(self.ctx)
-        self.ctx = ctx
+        c = Ctx(ctx)
+        c.parent = self.ctx
+        self.ctx = c
 
     def pop(self):
         self.ctx = self.ctx_stack.pop()
@@ -318,6 +336,8 @@ class World(object):
         def ok(v, req=req):
             req.fires.append((len(w.log), w.step, w.now(), "ok", v))
             w.ev(req.conn, "fire", rid=req.rid, kind=req.kind, out="ok", val=_short(v))
+            if w.armed and req.kind in ("publish", "subscribe", "connect") and not (req.kind == "publish" and v is None):
+                w.react(req.conn, req.kind + "_ok")
             return None
 
         def err(fl, req=req):
@@ -408,13 +428,49 @@ class World(object):
         def on_pub(topic, payload, qos, dup, retain, msgId, conn=conn):
             w.ev(conn, "cb", name="onPublish", topic=topic, payload=payload, qos=qos, dup=dup, retain=retain,
                  msgid=msgId)
+            if w.armed:
+                w.react(conn, "onPublish")
 
         def on_made(conn=conn):
             w.ev(conn, "cb", name="onMqttConnectionMade")
+            if w.armed:
+                w.react(conn, "onMqttConnectionMade")
         p.onDisconnection = on_disc if mask & 1 else None
         p.onPublish = on_pub if mask & 2 else None
         p.onMqttConnectionMade = on_made if mask & 4 else None
         self.ev(conn, "handlers", mask=mask)
+
+    def op_arm(self, a, trigger, action, arg=0):
+        """the next time `trigger` happens on address a, the application reacts from inside the callback
+        by calling `action` (the usual Twisted style: chaining calls on Deferred callbacks / handlers).
+        trigger: 'onPublish' | 'publish_ok' | 'subscribe_ok' | 'connect_ok' | 'onMqttConnectionMade'
+        action: 'disconnect' | 'publish' (arg = qos) | 'subscribe' | 'unsubscribe'"""
+        self.armed.setdefault(a, []).append([trigger, action, arg])
+        self.ev(self.cur.get(a), "arm", trigger=trigger, action=action, arg=arg)
+
+    def react(self, conn, trigger):
+        lst = self.armed.get(conn.a)
+        if not lst or self.cur.get(conn.a) is not conn or conn.lost:
+            return
+        for item in list(lst):
+            if item[0] == trigger:
+                lst.remove(item)
+                _, action, arg = item
+                a = conn.a
+                self.ev(conn, "react", trigger=trigger, action=action)
+                if action == "disconnect":
+                    self.op_disconnect(a)
+                elif action == "publish":
+                    self.op_publish(a, arg % 3)
+                elif action == "subscribe":
+                    self.op_subscribe(a, 0, 1, 1)
+                elif action == "unsubscribe":
+                    self.op_unsubscribe(a, 0, 1, 0)
+                return
+
+    def op_coalesce(self, a, n):
+        """the next n broker packets for address a arrive in one TCP segment"""
+        self.coalesce[a] = [max(2, n), []]
 
     def op_window(self, a, n):
         conn = self.api_conn(a)
@@ -554,9 +610,20 @@ class World(object):
     def can_rx(self, conn):
         return conn is not None and not conn.lost and conn.closed is None
 
-    def deliver(self, conn, data, desc, cuts=None):
+    def deliver(self, conn, data, desc, cuts=None, hold=True):
         """hand bytes to dataReceived, optionally cut into chunks at the given offsets"""
         data = bytes(data)
+        parts = None
+        co = self.coalesce.get(conn.a)
+        if co is not None and not cuts and hold:
+            co[1].append((data, desc))
+            self.ev(conn, "held_for_segment", desc=desc)
+            if len(co[1]) < co[0]:
+                return
+            del self.coalesce[conn.a]
+            data = b"".join(d for d, _ in co[1])
+            parts = [d for _, d in co[1]]
+            desc = ("SEGMENT",) + tuple(d[0] for d in parts)
         chunks = []
         if cuts:
             last = 0
@@ -568,7 +635,8 @@ class World(object):
             chunks = [data]
         self.push(("rx",) + tuple(desc))
         try:
-            self.ev(conn, "rx", data=data, desc=desc, nchunks=len(chunks))
+            self.ev(conn, "rx", data=data, desc=desc, nchunks=len(chunks),
+                    parts=parts if desc and desc[0] == "SEGMENT" else [desc])
             for ch in chunks:
                 if conn.lost:
                     break
@@ -623,8 +691,9 @@ class World(object):
             data = R.ref_encode("CONNACK", dict(session_present=bool(x & 1), code=sel), ver)
             desc = ("CONNACK", sel, x & 1)
             was = conn.phase
-            self.deliver(conn, data, desc, cuts)
             if was == "connecting":
+                # harness view of the handshake, updated before the delivery so that calls the application
+                # makes from inside the CONNACK callbacks are judged against the new phase
                 if sel == 0:
                     self.set_phase(conn, "connected")
                     conn.t_connack = self.now()
@@ -632,6 +701,7 @@ class World(object):
                         self.in_q2[a].clear()
                 else:
                     self.set_phase(conn, "refused")
+            self.deliver(conn, data, desc, cuts, hold=False)     # the handshake is never held back in a segment
             return
         if kind == "PINGRESP":
             out = bool(conn.b_ping)
